@@ -55,6 +55,7 @@ def run(chk):
         r09_1(chk, sd, dx)
     if chk.want("R09.2"):
         r09_2(chk, sd, dx)
+        weight_roles(chk, "R09.2", sd)
     if chk.want("R09.3") or chk.want("R09.4"):
         r09_34(chk, repo)
     chk.assume("rotation independence (rests on C08 plus discretisation) and convergence of Brent's iteration are not decided")
@@ -245,6 +246,35 @@ def r09_1(chk, sd, dx):
         chk.ob("R09.1", DX, q, "one radius per grid direction: the loop runs over 0 .. grid.shape[0] and the result has that many entries",
                lp_ is not None and lp_.kind == "range" and lp_.lo == P.const(0) and lp_.hi is not None and lp_.hi.key() == nrows and size_ok,
                fingerprint=f"{q}:all-directions", found=f"loop [{lp_.lo if lp_ else None}, {lp_.hi if lp_ else None}), result sizes {[str(obj_init(v).as_atom()[2][0]) for v in alloc]}")
+
+
+def weight_roles(chk, rid, sd):
+    """stockholder_weight_descriptor(sht, n_i, p_i, n_e, p_e, ...): the weight whose 0.5 (isovalue) surface is described is
+    interior / (interior + exterior + background) with the interior built from the first (numbers, positions) pair of the signature and
+    the exterior from the second -- swapped, the surface solves exterior/(total) = isovalue, which differs for isovalue != 0.5 or a background."""
+    q = "stockholder_weight_descriptor"
+    ev = sd.ev(q)
+    chk.saw(SD, q)
+    ps = ev.param_names
+    chk.need(len(ps) >= 5, f"{q}: expected (sht, n_i, p_i, n_e, p_e, ...)")
+    ni, pi_, ne, pe = ps[1:5]
+    calls = [e for e in ev.events if e.kind == "call" and (call_name(e.value.as_atom() or ()) or "").split(".")[-1] in ("from_arrays", "StockholderWeight")
+             and "StockholderWeight" in (call_name(e.value.as_atom() or ()) or "")]
+    chk.need(calls, f"{q}: construction of the StockholderWeight not found")
+    ok, found = True, None
+    for e in calls:
+        a = e.extra["args"]
+        if (call_name(e.value.as_atom()) or "").endswith("from_arrays"):
+            good = len(a) >= 4 and [x.key() for x in a[:4]] == [ni, pi_, ne, pe]
+        else:
+            ka = [x.key() for x in a[:2]]
+            good = len(ka) == 2 and ni in ka[0] and pi_ in ka[0] and ne not in ka[0] and pe not in ka[0] \
+                and ne in ka[1] and pe in ka[1] and ni not in ka[1] and pi_ not in ka[1]
+        if not good:
+            ok, found = False, found or str(e.value)[:160]
+    chk.ob(rid, SD, q, "the weight is built with the interior atoms (first numbers/positions pair of the signature) as interior and the "
+           "surrounding atoms as exterior", ok, node=calls[0].node, fingerprint="weight-roles", expected=f"from_arrays({ni}, {pi_}, {ne}, {pe}, ...)",
+           found=found)
 
 
 def r09_2(chk, sd, dx):
